@@ -435,10 +435,10 @@ impl Driver {
     fn push_blocking(&mut self, key: ErasedKey) {
         let waker = self.waker();
         let completed = self.completed_tx.clone();
+        #[cfg(compio_verif)]
+        let verif_addr = key.as_raw() as u64;
         // SAFETY: we're submitting into the driver, so it's safe to freeze here.
         let mut key = unsafe { key.freeze() };
-        #[cfg(compio_verif)]
-        let verif_addr = key.as_mut() as *mut _ as *const () as u64;
         #[cfg(compio_verif)]
         crate::verif::emit(crate::verif::BLOCKING_DISPATCH, verif_addr, 0);
         let mut closure = move || {
